@@ -85,6 +85,51 @@ MUTANTS = [
     ("r14-storage-extension-loses-history", "pams/market.py",
      "        self._executed_volumes = self._executed_volumes + [\n            0 for _ in range(length - len(self._executed_volumes))\n        ]",
      "        self._executed_volumes = [0 for _ in range(length)]", "C06"),
+    ("t01-settings-not-copied", "pams/utils/json_extends.py",
+     "    results = target_json.copy()", "    results = target_json", "C07"),
+    ("t02-uniform-offset", "pams/utils/json_random.py",
+     "        return self.prng.random() * (max_value - min_value) + min_value",
+     "        return self.prng.random() * (max_value - min_value) + max_value", "C18"),
+    ("t03-market-maker-full-spread", "pams/agents/market_maker_agent.py",
+     "            self.target_market.get_fundamental_price() * self.net_interest_spread * 0.5",
+     "            self.target_market.get_fundamental_price() * self.net_interest_spread * 1.0", "C20"),
+    ("t04-arbitrage-threshold-inclusive", "pams/agents/arbitrage_agent.py",
+     "            and market_index - market_price > self.order_threshold_price",
+     "            and market_index - market_price >= self.order_threshold_price", "C20"),
+    ("t05-regeneration-drops-kept-value", "pams/fundamentals.py",
+     "                self.prices[market_id][: self._generated_until + 1] + price_seq.tolist()",
+     "                self.prices[market_id][: self._generated_until] + price_seq.tolist()", "C12"),
+    ("t06-upper-cholesky", "pams/fundamentals.py",
+     "            cholesky_matrix = cholesky(cov_matrix, lower=True)",
+     "            cholesky_matrix = cholesky(cov_matrix, lower=False)", "C12"),
+    ("t07-shock-scale", "pams/events/fundamental_price_shock.py",
+     "        market.change_fundamental_price(scale=1 + self.price_change_rate)",
+     "        market.change_fundamental_price(scale=1 - self.price_change_rate)", "C14"),
+    ("t08-clip-reversed", "pams/events/price_limit_rule.py",
+     "            limited_price: float = min(max(order_price, min_price), max_price)",
+     "            limited_price: float = max(min(order_price, min_price), max_price)", "C15"),
+    ("t09-halt-line-does-not-move", "pams/events/trading_halt_rule.py",
+     "reference_price * self.trigger_change_rate * (self.activation_count + 1)", "reference_price * self.trigger_change_rate * 1", "C16"),
+    ("t10-index-from-fundamentals", "pams/index_market.py",
+     "            total_value += market.get_market_price(time=time) * outstanding_shares",
+     "            total_value += market.get_fundamental_price(time=time) * outstanding_shares", "C17"),
+    ("t11-fcn-noise-from-global-generator", "pams/agents/fcn_agent.py",
+     "        noise_log_return: float = self.noise_scale * self.prng.gauss(mu=0.0, sigma=1.0)",
+     "        noise_log_return: float = self.noise_scale * random.gauss(0.0, 1.0)", "C07"),
+    ("s01-logger-queue-not-cleared", "pams/logs/base.py",
+     "        self.process(logs=self.pending_logs)\n        self.pending_logs = []", "        self.process(logs=self.pending_logs)", "C10"),
+    ("s02-bulk-write-keeps-first-only", "pams/logs/base.py",
+     "        self.pending_logs.extend(logs)", "        self.pending_logs.extend(logs[:1])", "C10"),
+    ("s03-hook-filed-per-listed-time", "pams/simulator.py",
+     "        for time_ in dict.fromkeys(times):", "        for time_ in times:", "C13"),
+    ("s04-same-hook-object-accepted-again", "pams/simulator.py",
+     "        if event_hook in self.event_hooks:\n            raise ValueError(\"event_hook is already registered\")", "        pass", "C13"),
+    ("s05-spoof-guard-needs-two", "pams/runners/sequential.py",
+     "                if sum([order.agent_id != agent.agent_id for order in orders]) > 0:",
+     "                if sum([order.agent_id != agent.agent_id for order in orders]) > 1:", "C04"),
+    ("s06-zero-price-bid-is-falsy", "pams/market.py",
+     "                buy_order.price is not None\n                and sell_order.price is not None\n                and buy_order.price < sell_order.price",
+     "                buy_order.price\n                and sell_order.price\n                and buy_order.price < sell_order.price", "C01"),
     ("m11-mid-not-refreshed-on-cancel", "pams/market.py",
      "        if cancel.placed_at is None:\n            raise AssertionError\n        self._update_market_price()",
      "        if cancel.placed_at is None:\n            raise AssertionError", "C08"),
